@@ -88,7 +88,16 @@ def mon_returned_point(ri):
     key = ",".join(ri.xbits)
     hits = [c for c in ri.objcalls if c.x == key]
     if not hits:
-        return ({"alg": ri.name, "cause": "returned x was never evaluated"}, "%s: returned x is not bit-for-bit one of the %d evaluated points (ret=%d)" % (ri.name, len(ri.objcalls), ri.ret))
+        # how far from the nearest evaluated point?  (a few units in the last place = the algorithm re-derived the point arithmetically)
+        best = float("inf")
+        for c in ri.objcalls:
+            xe = hl(c.x)
+            if len(xe) == len(ri.x):
+                d = max((abs(a - b) / max(abs(a), abs(b), 1e-300) if a != b else 0.0) for a, b in zip(xe, ri.x)) if xe else 0.0
+                best = min(best, d)
+        sig = {"alg": ri.name, "cause": "returned x was never evaluated", "distance": "rounding (<= 1e-14 relative)" if best <= 1e-14 else "more than rounding",
+               "constrained": ("ineq" in ri.sp or "eq" in ri.sp)}
+        return (sig, "%s: returned x is not bit-for-bit one of the %d evaluated points (nearest differs by %.3g relative, ret=%d)" % (ri.name, len(ri.objcalls), best, ri.ret))
     vals = [unhex(c.val) for c in hits]
     if not any((v == ri.optf) or (v != v and ri.optf != ri.optf) for v in vals):
         sig = {"alg": ri.name, "cause": "opt_f differs from the objective value at the returned x"}
